@@ -15,7 +15,7 @@ Check C10_text_roundtrip :
   forall (h : header TS) (gs : list group),
   header_ok TS ts_ok h -> Forall group_ok gs ->
   read_report TS parse_ts (write_text human TS fmt_ts h gs) = RepText TS h gs GEnd.
-Check C10_truncation_except_K4 :
+Check C10_truncation :
   forall (human : N -> list N) (TS : Type) (fmt_ts : TS -> list N) (parse_ts : list N -> option TS)
          (ts_ok : TS -> Prop),
   (forall n, human n <> [] /\
@@ -24,19 +24,7 @@ Check C10_truncation_except_K4 :
                         parse_ts (str_trim (fmt_ts t)) = Some t) ->
   forall (h : header TS) (gs : list group) (g : group) (k : nat),
   header_ok TS ts_ok h -> Forall group_ok gs -> group_ok g -> g_files g <> [] ->
-  (0 < k < length (write_group human g))%nat -> ~ K4 human g k ->
+  (0 < k < length (write_group human g))%nat ->
   read_report TS parse_ts
     (write_header human TS fmt_ts h ++ flat_map (write_group human) gs ++ firstn k (write_group human g))
   = RepText TS h gs GErr.
-Check C10_K4_witness :
-  exists (human : N -> list N) (TS : Type) (fmt_ts : TS -> list N) (parse_ts : list N -> option TS)
-         (ts_ok : TS -> Prop),
-  (forall n, human n <> [] /\
-             Forall (fun b => 32 <= b < 127 /\ b <> 42 /\ b <> 41 /\ b <> 58) (human n)) /\
-  (forall t, ts_ok t -> Forall (fun b => 32 <= b < 127) (fmt_ts t) /\
-                        parse_ts (str_trim (fmt_ts t)) = Some t) /\
-  exists (h : header TS) (g : group) (k : nat),
-    header_ok TS ts_ok h /\ group_ok g /\ g_files g <> [] /\
-    (0 < k < length (write_group human g))%nat /\ K4 human g k /\
-    read_report TS parse_ts (write_header human TS fmt_ts h ++ firstn k (write_group human g))
-    = RepText TS h [mkGroup (g_hash g) (g_len g) [[47; 97]]] GEnd.
